@@ -695,6 +695,7 @@ func (s *MemoryStore) Dequeue(req DequeueRequest) (DequeueResponse, error) {
 }
 
 func (s *MemoryStore) Ack(leaseID string) error {
+	leaseID = strings.TrimSpace(leaseID)
 	s.mu.Lock()
 	defer s.mu.Unlock()
 
@@ -788,6 +789,7 @@ func (s *MemoryStore) AckBatch(leaseIDs []string) (LeaseBatchResult, error) {
 }
 
 func (s *MemoryStore) Nack(leaseID string, delay time.Duration) error {
+	leaseID = strings.TrimSpace(leaseID)
 	s.mu.Lock()
 	defer s.mu.Unlock()
 
@@ -878,6 +880,7 @@ func (s *MemoryStore) Extend(leaseID string, extendBy time.Duration) error {
 	if extendBy <= 0 {
 		return nil
 	}
+	leaseID = strings.TrimSpace(leaseID)
 
 	s.mu.Lock()
 	defer s.mu.Unlock()
@@ -905,6 +908,7 @@ func (s *MemoryStore) Extend(leaseID string, extendBy time.Duration) error {
 }
 
 func (s *MemoryStore) MarkDead(leaseID string, reason string) error {
+	leaseID = strings.TrimSpace(leaseID)
 	s.mu.Lock()
 	defer s.mu.Unlock()
 
